@@ -1,5 +1,8 @@
 //go:build verif
 
+// The refinement of the abstract Store model by DefaultStore is the subject of C14; the checks of
+// the properties that rest on that model (C01, C02, C04-C07) re-run these contracts as well, so that
+// a change in the store that breaks one of them is reported there too.
 // Contracts for package store (DefaultStore over go-datastore), read by /verif/bin/gocv.
 // Comment-only. The abstraction function to the Store model of libspec/10_store.spec:
 // height = le64dec(kv[HeightKey]) (0 if absent), block h = the records under KeyHdr(h),
@@ -43,23 +46,23 @@ package store
 //@ pred AbsHeight(s) := ite(s.db.kvHas[dskey(KeyHeight())], le64dec(s.db.kv[dskey(KeyHeight())]), 0)
 
 //@ func encodeHeight(height) (r)
-//@   property C14
+//@   property C14 C01 C02 C04 C05 C06 C07
 //@   nopanic
 //@   ensures [encode] val(r) == le64(height) && len(r) == 8
 //@ func decodeHeight(heightBytes) (h, err)
-//@   property C14
+//@   property C14 C01 C02 C04 C05 C06 C07
 //@   nopanic
 //@   ensures [length-checked] err == nil <==> len(heightBytes) == 8
 //@   ensures [decode] err == nil ==> h == le64dec(val(heightBytes))
 
 //@ func (s *DefaultStore) Height(ctx) (h, err)
-//@   property C14
+//@   property C14 C01 C02 C04 C05 C06 C07
 //@   requires [wiring] s.db != nil
 //@   ensures [refines] err == nil ==> h == AbsHeight(s) || (s.db.kvHas[dskey(KeyHeight())] && blen(s.db.kv[dskey(KeyHeight())]) != 8)
 //@   ensures [zero-when-absent] !s.db.kvHas[dskey(KeyHeight())] && err == nil ==> h == 0
 
 //@ func (s *DefaultStore) SetHeight(ctx, height) (err)
-//@   property C14
+//@   property C14 C01 C02 C04 C05 C06 C07
 //@   requires [wiring] s.db != nil
 //@   requires [well-formed] s.db.kvHas[dskey(KeyHeight())] ==> blen(s.db.kv[dskey(KeyHeight())]) == 8
 //@   modifies durable s.db.kv[dskey(KeyHeight())], durable s.db.kvHas[dskey(KeyHeight())], durable s.db.size
@@ -68,20 +71,20 @@ package store
 //@   ensures [stays-well-formed] s.db.kvHas[dskey(KeyHeight())] ==> blen(s.db.kv[dskey(KeyHeight())]) == 8
 
 //@ func (s *DefaultStore) SetMetadata(ctx, key, value) (err)
-//@   property C14
+//@   property C14 C01 C02 C04 C05 C06 C07
 //@   requires [wiring] s.db != nil
 //@   modifies durable s.db.kv[dskey(KeyMeta(key))], durable s.db.kvHas[dskey(KeyMeta(key))], durable s.db.size
 //@   ensures [last-write-wins] err == nil ==> s.db.kvHas[dskey(KeyMeta(key))] && s.db.kv[dskey(KeyMeta(key))] == val(value)
 //@   ensures [fail-no-effect] err != nil ==> s.db.kv[dskey(KeyMeta(key))] == old(s.db.kv[dskey(KeyMeta(key))]) && s.db.kvHas[dskey(KeyMeta(key))] == old(s.db.kvHas[dskey(KeyMeta(key))])
 
 //@ func (s *DefaultStore) GetMetadata(ctx, key) (value, err)
-//@   property C14
+//@   property C14 C01 C02 C04 C05 C06 C07
 //@   requires [wiring] s.db != nil
 //@   ensures [reads-what-was-written] err == nil ==> s.db.kvHas[dskey(KeyMeta(key))] && val(value) == s.db.kv[dskey(KeyMeta(key))]
 //@   ensures [absent] !s.db.kvHas[dskey(KeyMeta(key))] ==> err != nil
 
 //@ func (s *DefaultStore) SaveBlockData(ctx, header, data, signature) (err)
-//@   property C14
+//@   property C14 C01 C02 C04 C05 C06 C07
 //@   requires [wiring] s.db != nil && header != nil && data != nil && signature != nil
 //@   observe bt := call Batch
 //@   observe put := call Put
@@ -99,17 +102,17 @@ package store
 //@ pred dskeyInv(k) := dskeyInverse(k)
 
 //@ func (s *DefaultStore) GetSignature(ctx, height) (sig, err)
-//@   property C14
+//@   property C14 C01 C02 C04 C05 C06 C07
 //@   requires [wiring] s.db != nil
 //@   ensures [sig-with-block] err == nil ==> sig != nil && s.db.kvHas[dskey(KeySig(height))] && val(*sig) == s.db.kv[dskey(KeySig(height))]
 
 //@ func (s *DefaultStore) getHeightByHash(ctx, hash) (h, err)
-//@   property C14
+//@   property C14 C01 C02 C04 C05 C06 C07
 //@   requires [wiring] s.db != nil
 //@   ensures [by-hash] err == nil ==> s.db.kvHas[dskey(KeyIdx(hexstr(val(hash))))] && h == le64dec(s.db.kv[dskey(KeyIdx(hexstr(val(hash))))])
 
 //@ func (s *DefaultStore) UpdateState(ctx, state) (err)
-//@   property C14
+//@   property C14 C01 C02 C04 C05 C06 C07
 //@   requires [wiring] s.db != nil
 //@   observe put := call Put
 //@   modifies durable s.db.kv[dskey(KeyState())], durable s.db.kvHas[dskey(KeyState())], durable s.db.size
